@@ -28,6 +28,7 @@ func main() {
 		asJSON  = flag.Bool("json", false, "")
 		nw      = flag.Int("workers", 0, "")
 		list    = flag.Bool("list", false, "")
+		oneshot = flag.String("oneshot", "", "evaluate hex-encoded C05 ops in this fresh process")
 	)
 	flag.Parse()
 	if *tier == "" {
@@ -65,6 +66,10 @@ func main() {
 		for _, id := range ids {
 			fmt.Println(id)
 		}
+		return
+	}
+	if *oneshot != "" {
+		props.C05Oneshot(*oneshot)
 		return
 	}
 	if *replay != "" {
